@@ -382,6 +382,8 @@ def targets(ctx):
         ctx.extra.setdefault("fuzz_campaigns", {})[f"varint[{ctx.shard}]"] = {"executions": execs, "crashes": len(crashes)}
         return Eval(fails, weight=max(1, execs), nontrivial_count=execs, labels=["fuzz:varint"])
 
+    from . import _seq
+
     return [
         Target("atheris_varint_campaign", fuzz_ev, cases=fuzz_cases, exhaustive=False, shard_cases=False, quick=10**9, thorough=10**9, time_thorough=3000),
         Target("varint_exhaustive_range", eval_range(bp), cases=range_cases, exhaustive=True,
@@ -398,4 +400,5 @@ def targets(ctx):
         Target("decode_random_bytes", eval_bytes_one(bp), strategy=st.binary(max_size=12).map(lambda b: {"b": b}),
                quick=3000, thorough=20000),
         scalar_targets(ctx),
+        _seq.target("C16"),
     ]
